@@ -66,7 +66,9 @@ CLAIMED = {
                 "one lemma per mutation operator (processor, parameter value at any depth, insert/delete/swap, every sweep field incl. non-equivalent expressions via C12's sig_norm). The semantic id's "
                 "dependence on the sweep block is a generated fact with a hard obligation (repaired by a fix commit). Closed under the global context. Every single-point mutation at every position of "
                 "generated configurations is run through the implementation and compared with hashed model preimages; pairwise inequality is asserted directly on the implementation.",
-        "note": "Same models as C04. Open finding F-C05-b: members literally named 'expr' are dropped from the node semantic id (the model reproduces it; discrimination lemmas carry dropped name = false).",
+        "note": "Same models as C04. The node-semantic-id sanitiser is modelled in both shapes (any-depth strip / scoped strip), selected by the generated fact node_sem_strip_scoped: "
+                "C05_names_refuted_when (a sweep variable named 'expr' changes no identity under the any-depth shape) and the name-independent mutation lemmas under the scoped shape, "
+                "which the current tree has (fix 3bfdd4d, hard obligation now_strip_scoped). Sequences of non-JSON values (dates, bytes) are outside the model's JSON domain and are judged by a direct oracle.",
         "technique": "Coq proof (injectivity of canonical JSON, collision-explicit discrimination) + generated facts + mutation correspondence",
         "design": "DESIGN.md section 6, C05",
     },
